@@ -7,6 +7,8 @@ package server
 import (
 	"encoding/json"
 	"net/url"
+	"regexp"
+	"strconv"
 	"strings"
 	"unicode/utf8"
 
@@ -88,4 +90,37 @@ func c19KnownExtreme(path, field, val string) string {
 		return "find-path-unbounded-depth"
 	}
 	return ""
+}
+
+var c19ExpRe = regexp.MustCompile(`[0-9](?:\.[0-9]+)?[eE]\+?([0-9]+)`)
+
+// knownCase neutralises case-level shapes. Finding "float16-overflow-inf": a
+// float16 index (created or compressed to) together with a number of
+// magnitude >= 1e5 anywhere in the case (float16 tops out at 65504).
+func (g *c19G) knownCase(c *c19Case) {
+	if !verifkit.Known("float16-overflow-inf") {
+		return
+	}
+	f16, big := false, false
+	for _, r := range c.Reqs {
+		if strings.Contains(r.Body, `"float16"`) {
+			f16 = true
+		}
+		for _, m := range c19ExpRe.FindAllStringSubmatch(r.Body, -1) {
+			if e, err := strconv.Atoi(m[1]); err == nil && e >= 5 {
+				big = true
+			}
+		}
+		for _, lit := range []string{"100000", "1000000", "4611686018427387904", "9223372036854775807", "9223372036854775808"} {
+			if strings.Contains(r.Body, lit) {
+				big = true
+			}
+		}
+	}
+	if f16 && big {
+		for i := range c.Reqs {
+			c.Reqs[i].Body = strings.ReplaceAll(c.Reqs[i].Body, `"float16"`, `"float32"`)
+		}
+		g.excluded = append(g.excluded, "float16-overflow-inf")
+	}
 }
